@@ -152,6 +152,7 @@ func (H) Gen(prop string, rng *rand.Rand, tier string) *core.Plan {
 	}
 	p.Ops = append(p.Ops, core.Op{K: "flush"}, core.Op{K: "query", S: fmt.Sprint(rng.Intn(1 << 30))}, core.Op{K: "query", S: fmt.Sprint(rng.Intn(1 << 30))})
 	p.Cfg["maporder"] = rng.Intn(2)   // tape-chosen iteration order of Go maps in the code under test
+	core.GenZone(p, rng.Intn)         // the node's local time zone
 	p.Cfg["realmgr"] = rng.Intn(2)    // responses are received by lindb's own task manager on a real worker pool
 	p.Cfg["mgrworkers"] = rng.Intn(3) // 1-3 workers
 	p.Cfg["fieldmodes"] = rng.Intn(2)
@@ -712,9 +713,9 @@ func (q queryDef) sql() string {
 	return sb.String()
 }
 
+// fmtTime writes a timestamp the way a statement gives it: in the node's local time zone.
 func fmtTime(ms int64) string {
-	s := (ms - Jan1) / 1000
-	return fmt.Sprintf("2000-01-01 %02d:%02d:%02d", s/3600, (s/60)%60, s%60)
+	return time.UnixMilli(ms).In(time.Local).Format("2006-01-02 15:04:05")
 }
 
 func genQuery(rng *rand.Rand, prop string, fams int, multi ...bool) queryDef {
@@ -1079,7 +1080,7 @@ func (r *run) query(op core.Op, duringFlush bool) {
 			}
 		}
 		for _, fs := range fieldSpecs {
-			rs2, err2 := r.n.Query(r.db, "select "+fs.name+" from m where time>='2000-01-01 00:00:00' and time<='2000-01-01 00:59:59' group by id,time(10s)", lay)
+			rs2, err2 := r.n.Query(r.db, "select "+fs.name+" from m where time>='"+fmtTime(Jan1)+"' and time<='"+fmtTime(Jan1+3599000)+"' group by id,time(10s)", lay)
 			if err2 != nil {
 				c.Sim.Event("  all %s: %v", fs.name, err2)
 				continue
